@@ -212,6 +212,20 @@ def run(tier, replay=None):
             if "wedged" in what:
                 stats["wedged"] += 1
             violations.append((what, case))
+    # afterwards-still-served, for endings that go through error paths: connections that end through the write-error path
+    # max_connections times, requests that time out in a silent modulator max_inflight_requests times
+    if not replay:
+        import srvmon
+        extra = sl.slot_histories(r, thorough) + sl.inflight_histories(r, thorough)
+        eobs, eout = sl.run_histories(extra, "debug", tag="c13x", timeout=900)
+        if eobs is None:
+            violations.append(("the in-process server wedged or crashed on the error-path histories: " + eout[-200:], extra[0]))
+        else:
+            stats["error_path_histories"] = len(extra)
+            for c, ob in zip(extra, eobs):
+                for (tagv, what, t) in srvmon.Tracker(c, ob).run() if "ops" in ob else [("C14", "setup error", 0)]:
+                    if tagv == "C14":
+                        violations.append(("afterwards the server no longer serves normally: " + what, c))
     coverage = {
         "obligations": len(THEOREMS), "discharged": len([t for t in THEOREMS if closed.get(t) == "closed"]),
         "checker_cmd": "python3 translator/gen.py && make -C coq -j16 Props/C13.vo && coqc work/assm_C13.v",
